@@ -144,12 +144,12 @@ pub static GAMES: Map<&'static str, Game> = phf_map! {
     "vrising" => game!("V Rising", 27016, Protocol::Valve(Engine::new(1_604_030))),
     "jc2m" => game!("Just Cause 2: Multiplayer", 7777, Protocol::PROPRIETARY(ProprietaryProtocol::JC2M)),
     "warsow" => game!("Warsow", 44400, Protocol::Quake(QuakeVersion::Three)),
-    "dhe4445" => game!("Darkest Hour: Europe '44-'45 (2008)", 7758, Protocol::Unreal2),
-    "devastation" => game!("Devastation (2003)", 7778, Protocol::Unreal2),
-    "killingfloor" => game!("Killing Floor", 7708, Protocol::Unreal2),
-    "redorchestra" => game!("Red Orchestra", 7759, Protocol::Unreal2),
-    "unrealtournament2003" => game!("Unreal Tournament 2003", 7758, Protocol::Unreal2),
-    "unrealtournament2004" => game!("Unreal Tournament 2004", 7778, Protocol::Unreal2),
+    "dhe4445" => game!("Darkest Hour: Europe '44-'45 (2008)", 7758, Protocol::Unreal2, crate::protocols::unreal2::GatheringSettings::default().into_extra()),
+    "devastation" => game!("Devastation (2003)", 7778, Protocol::Unreal2, crate::protocols::unreal2::GatheringSettings::default().into_extra()),
+    "killingfloor" => game!("Killing Floor", 7708, Protocol::Unreal2, crate::protocols::unreal2::GatheringSettings::default().into_extra()),
+    "redorchestra" => game!("Red Orchestra", 7759, Protocol::Unreal2, crate::protocols::unreal2::GatheringSettings::default().into_extra()),
+    "unrealtournament2003" => game!("Unreal Tournament 2003", 7758, Protocol::Unreal2, crate::protocols::unreal2::GatheringSettings::default().into_extra()),
+    "unrealtournament2004" => game!("Unreal Tournament 2004", 7778, Protocol::Unreal2, crate::protocols::unreal2::GatheringSettings::default().into_extra()),
     "eco" => game!("Eco", 3001, Protocol::PROPRIETARY(ProprietaryProtocol::Eco)),
     "zps" => game!("Zombie Panic: Source", 27015, Protocol::Valve(Engine::new(17_500))),
     "moe" => game!("Myth Of Empires", 12888, Protocol::Valve(Engine::new(1_371_580))),
